@@ -560,3 +560,53 @@ func rigLiveness(r *Reporter) {
 		})
 	}
 }
+
+// selftest: demonstrates that the trace binding rejects corrupted traces.
+func init() {
+	register("selftest", func(r *Reporter) {
+		dir := newWorkDir("selftest")
+		s := rigSchedule{Variant: "mvp7-0", Cores: 2, Events: []rigEvent{{0, 0, "W", 64}, {5, 1, "R", 64}, {700, 1, "W", 68}}}
+		snaps, pm, stuck := runSchedule(s)
+		if pm != "" || stuck || len(snaps) < 5 {
+			inconclusive("selftest schedule did not run: %v %v %d", pm, stuck, len(snaps))
+		}
+		// 1. the faithful trace is accepted with no false clause
+		good := filepath.Join(dir, "good.ndjson")
+		tw := newTraceWriter(good)
+		tw.addRun(s, snaps)
+		tw.close()
+		if bad := validateTrace(r, good, tw.lines); len(bad) != 0 {
+			inconclusive("selftest: faithful trace rejected: %v", bad)
+		}
+		fmt.Printf("selftest: faithful trace of %d states accepted\n", tw.lines)
+		// 2. one corrupted field (a second Modified holder) must be reported as SWMR
+		var mid map[string]any
+		k := len(snaps) / 2
+		for i, sn := range snaps {
+			_ = json.Unmarshal(sn, &mid)
+			ls := mid["lines"].([]any)
+			if len(ls) > 0 {
+				k = i
+			}
+		}
+		_ = json.Unmarshal(snaps[k], &mid)
+		line0 := mid["lines"].([]any)[0].(map[string]any)
+		line0["st"] = []int{2, 2}
+		corrupted, _ := json.Marshal(mid)
+		snaps2 := append([][]byte{}, snaps...)
+		snaps2[k] = corrupted
+		badPath := filepath.Join(dir, "bad.ndjson")
+		tw2 := newTraceWriter(badPath)
+		tw2.addRun(s, snaps2)
+		tw2.close()
+		bad := validateTrace(r, badPath, tw2.lines)
+		if _, ok := bad[0]["SWMR"]; !ok {
+			inconclusive("selftest: corrupted trace NOT rejected (%v)", bad)
+		}
+		fmt.Printf("selftest: trace with one corrupted field rejected: clause SWMR false at line %d\n", bad[0]["SWMR"])
+		r.Eval("good", true)
+		r.Eval("bad", true)
+		r.Sample("faithful and corrupted MSI snapshot traces")
+		propID = "selftest"
+	})
+}
